@@ -15,7 +15,7 @@ from harness import core
 from harness.core import coqR, coq_list
 
 THEOREMS = ['C12_lse_shift', 'C12_G_score', 'C12_LN_score', 'C12_GKDE_score', 'C12_LNKDE_score', 'C12_GMIX_score',
-            'C12_G_grad', 'C12_LN_grad', 'C12_permute_individuals', 'C12_var_two_forms', 'C12_centered_sum_zero']
+            'C12_G_grad', 'C12_LN_grad', 'C12_GKDE_grad', 'C12_LNKDE_grad', 'C12_GMIX_cell_blocks', 'C12_GMIX_grad', 'C12_permute_individuals', 'C12_var_two_forms', 'C12_centered_sum_zero']
 HEADER = '''From Coq Require Import Reals Lra List.
 From Interval Require Import Tactic.
 From Chi Require Import Base.RSum Base.Score Base.Tie Model.Filters.
